@@ -5,6 +5,8 @@ package main
 // file only projects the observation into the same shape and tests equality / the stated implication.
 
 import (
+	"strconv"
+	"regexp"
 	"encoding/json"
 	"flag"
 	"fmt"
@@ -66,6 +68,49 @@ type jSummary struct {
 	Trouble    []string       `json:"trouble"`
 	Cases      int            `json:"cases"`
 	Accepted   int            `json:"accepted"`
+}
+
+var declaredEnumIssue = regexp.MustCompile(`^#/components/schemas/[^/]+: enum value `)
+
+var propPointer = regexp.MustCompile(`^#/components/schemas/([^/]+)/properties/([^/:]+)[:/]`)
+var paramPointer = regexp.MustCompile(`/parameters/(\d+)/schema[:/]`)
+
+// goTypeAt resolves the JSON pointer an issue starts with to the Go type of the struct field or (in a one-method project) of the
+// documented parameter it describes; "" when it cannot be resolved.
+func goTypeAt(pc *pCase, issue string) string {
+	if m := propPointer.FindStringSubmatch(issue); m != nil {
+		for _, t := range pc.Types {
+			if t.Name != m[1] {
+				continue
+			}
+			for _, f := range t.Fields {
+				jn := strings.Split(f.JSON, ",")[0]
+				if jn == "" {
+					jn = f.Name
+				}
+				if jn == m[2] {
+					return f.Type
+				}
+			}
+		}
+		return ""
+	}
+	if m := paramPointer.FindStringSubmatch(issue); m != nil && len(pc.Methods) == 1 {
+		idx, _ := strconv.Atoi(m[1])
+		meth := pc.Methods[0]
+		n := 0
+		for _, sg := range meth.Sig {
+			for _, a := range meth.Anns {
+				if a.Value == sg.Name && (a.Kind == "Path" || a.Kind == "Query" || a.Kind == "Header") {
+					if n == idx {
+						return sg.Type
+					}
+					n++
+				}
+			}
+		}
+	}
+	return ""
 }
 
 func accepted(r *runObs) bool { return r != nil && r.Exit == 0 && !r.Panicked && !r.TimedOut }
@@ -147,6 +192,13 @@ func judgeCase(rec *caseRecord, sum *jSummary) {
 		}
 	}
 	if rec.Build != "" {
+		// a verbatim (hostile) declaration may itself be ill-formed Go - e.g. a generic type used without instantiation: such a
+		// project is part of C14's input language (the trace rules still demand a clean Exit), it carries no other expectation
+		for _, t := range rec.Case.Types {
+			if t.Kind == "raw" {
+				return
+			}
+		}
 		// the concretised project does not compile before gleece is involved: harness trouble, never a verdict
 		sum.Trouble = append(sum.Trouble, rec.ID+": concretised project does not compile: "+rec.Build)
 		return
@@ -579,7 +631,16 @@ func judgeCase(rec *caseRecord, sum *jSummary) {
 			add("C08", fmt.Sprintf("%s (%s): response without description: %s", name, r.Spec.Version, x))
 		}
 		for _, x := range c.EnumTypeIssues {
-			sum.Findings = append(sum.Findings, jFinding{ID: rec.ID, Prop: "C08", Class: "known:enum-type", What: fmt.Sprintf("%s (%s): %s", name, r.Spec.Version, x)})
+			// the recorded finding is specific: the 3.0 emitter writes the constants of a DECLARED non-string enum type (a component)
+			// as strings; an ill-typed enum value anywhere else, or in the 3.1 document, is a violation of its own
+			class := "violation"
+			if strings.HasPrefix(r.Spec.Version, "3.0") && declaredEnumIssue.MatchString(x) {
+				class = "known:enum-type"
+			}
+			if gt := goTypeAt(pc, x); gt != "" {
+				x += " [go type " + gt + "]"
+			}
+			sum.Findings = append(sum.Findings, jFinding{ID: rec.ID, Prop: "C08", Class: class, What: fmt.Sprintf("%s (%s): %s", name, r.Spec.Version, x)})
 		}
 		if r.Spec.Version != "" {
 			wantV := pc.Cfg.Version
@@ -820,9 +881,11 @@ func absSchema(v any) any {
 	case t == "object" && m["additionalProperties"] != nil && m["properties"] == nil:
 		return map[string]any{"k": "map", "value": absSchema(m["additionalProperties"])}
 	default:
+		// a string schema's format: from the Go type (time.Time, []byte) or from a validator rule (email, uuid, ... - the
+		// specification holds the table); formats of other primitives are outside the specification's vocabulary
 		f := asString(m["format"])
-		if f != "date-time" && f != "base64" {
-			f = "" // other formats come from validator tags, not from the Go type
+		if t != "string" {
+			f = ""
 		}
 		return map[string]any{"k": "prim", "t": t, "f": f}
 	}
@@ -991,6 +1054,11 @@ func normSchema(v any) any {
 				out[k] = canon(l)
 			}
 		case "enum":
+			if t := typeOf(m); t == "array" || t == "boolean" || t == "object" {
+				// an enum/oneof rule on a non-scalar schema is meaningless in both dialects (reported under C08 for each document)
+				out["enumOnNonScalar"] = len(asSlice(x)) > 0
+				continue
+			}
 			l, ts := []any{}, []any{}
 			for _, e := range asSlice(x) {
 				l = append(l, fmt.Sprint(e))
